@@ -303,11 +303,6 @@ end Hbs.PlainText
 namespace Hbs.PlainText
 open Hbs Hbs.Pest Hbs.Grammar
 
-/-- any text without `{{` splits into the whitespace pest skips and the rest -/
-theorem textAfterTag_split (R : Str) (hR : noOpen R) :
-    TextAfterTag (R.takeWhile isPestWs) (R.dropWhile isPestWs) :=
-  ⟨takeWhile_ws R, dropWhile_ws_head R, noOpen_dropWhile _ R hR⟩
-
 /-- **compile2 on  L ++ {{!c}} ++ R**  for every text `R` without `{{` -/
 theorem compile_text_comment (L c R : Str) (opts : TemplateOptions)
     (hL : L = [] ∨ TextBeforeTag L) (hc : CommentText c) (hd : noDash c) (hR : noOpen R) :
